@@ -20,6 +20,8 @@ CONSTANTS
     HasLL,                  \* a lower level / persister exists
     MaxLLFails,             \* LowerLevelUpdate may fail this many times
     WithClose,              \* a closer calls Close()
+    DirtyWait,              \* MaxDirtyOps / MaxDirtyKeyValBytes are configured so low that the merger waits for the
+                            \* persister after every cycle that leaves anything dirty (worst case of that back-pressure)
     Devs
 
 VARIABLES
@@ -40,15 +42,21 @@ VARIABLES
     ppc, llfails,      \* persister
     npc,        \* notifiers
     cpc,        \* closer
-    mdone, pdone
+    mdone, pdone,
+    och,        \* collection.waitDirtyOutgoingCh: 0 (nil) or the generation number of the channel
+    oclosed,    \* generations that have been closed
+    ogen,       \* generations made so far
+    mout,       \* the channel the merger captured in mergerNotifyPersister (0: none)
+    pout        \* the channel the persister captured in its swap and closes after unlocking (0: none)
 
 vars == <<mu, top, mid, base, closed, wch, msig, pings, held, ponged, topWait, baseWait,
-          wpc, wdone, wres, mpc, ppc, llfails, npc, cpc, mdone, pdone>>
+          wpc, wdone, wres, mpc, ppc, llfails, npc, cpc, mdone, pdone, och, oclosed, ogen, mout, pout>>
 
 Writers == 1..NWriters
 Notifiers == 1..NNotifiers
 W(w) == w          \* the mutex holder: 0 nobody, w a writer, 100 the persister
 Dev(d) == d \in Devs
+OUT == <<och, oclosed, ogen, mout, pout>>
 
 Init ==
     /\ mu = 0 /\ top = 0 /\ mid = "nil" /\ base = "nil" /\ closed = FALSE
@@ -59,22 +67,26 @@ Init ==
     /\ npc = [n \in Notifiers |-> "idle"]
     /\ cpc = (IF WithClose THEN "idle" ELSE "never")
     /\ mdone = FALSE /\ pdone = ~HasLL
+    /\ och = 0 /\ oclosed = {} /\ ogen = 0 /\ mout = 0 /\ pout = 0
 
 -----------------------------------------------------------------------------
 (* Writers: ExecuteBatch (collection.go:297-387) *)
 
 WCall(w) ==
+    /\ UNCHANGED OUT
     /\ wpc[w] = "idle" /\ wdone[w] < MaxBatches
     /\ wpc' = [wpc EXCEPT ![w] = "lock"]
     /\ UNCHANGED <<mu, top, mid, base, closed, wch, msig, pings, held, ponged, topWait, baseWait, wdone, wres, mpc, ppc, llfails, npc, cpc, mdone, pdone>>
 
 WLock(w) ==     \* m.m.Lock(), also after a condition wake-up
+    /\ UNCHANGED OUT
     /\ wpc[w] = "lock" /\ mu = 0
     /\ mu' = W(w)
     /\ wpc' = [wpc EXCEPT ![w] = "check"]
     /\ UNCHANGED <<top, mid, base, closed, wch, msig, pings, held, ponged, topWait, baseWait, wdone, wres, mpc, ppc, llfails, npc, cpc, mdone, pdone>>
 
 WCheck(w) ==    \* the for loop at 340-354 and what follows, up to Unlock
+    /\ UNCHANGED OUT
     /\ wpc[w] = "check" /\ mu = W(w)
     /\ IF top >= MaxPre
        THEN IF closed /\ ~Dev("NoClosedCheckInWaitLoop")
@@ -96,6 +108,7 @@ WCheck(w) ==    \* the for loop at 340-354 and what follows, up to Unlock
 
 \* a writer woken by Broadcast has to take the mutex again
 WWake(w) ==
+    /\ UNCHANGED OUT
     /\ wpc[w] = "waiting" /\ w \notin topWait
     /\ wpc' = [wpc EXCEPT ![w] = "lock"]
     /\ UNCHANGED <<mu, top, mid, base, closed, wch, msig, pings, held, ponged, topWait, baseWait, wdone, wres, mpc, ppc, llfails, npc, cpc, mdone, pdone>>
@@ -106,18 +119,21 @@ WWake(w) ==
 Pong(ps) == {p.from : p \in {ps[i] : i \in 1..Len(ps)}}
 
 MLoop ==        \* replyToPings from the previous loop
+    /\ UNCHANGED OUT
     /\ mpc = "loop"
     /\ ponged' = ponged \cup Pong(held) /\ held' = <<>>
     /\ mpc' = "wfw"
     /\ UNCHANGED <<mu, top, mid, base, closed, wch, msig, pings, topWait, baseWait, wpc, wdone, wres, ppc, llfails, npc, cpc, mdone, pdone>>
 
 MWaitForWork == \* mergerWaitForWork 208-215: under the lock
+    /\ UNCHANGED OUT
     /\ mpc = "wfw" /\ mu = 0
     /\ IF top = 0 THEN wch' = "open" /\ msig' = FALSE /\ mpc' = "select"
        ELSE UNCHANGED <<wch, msig>> /\ mpc' = "drain"
     /\ UNCHANGED <<mu, top, mid, base, closed, pings, held, ponged, topWait, baseWait, wpc, wdone, wres, ppc, llfails, npc, cpc, mdone, pdone>>
 
 MSelectStop ==  \* case <-m.stopCh
+    /\ UNCHANGED OUT
     /\ mpc = "select" /\ closed
     \* deferred replyToPings: the pings the merger has received.  Pings still queued in
     \* the channel are never answered; their senders give up when the merger's done
@@ -128,23 +144,27 @@ MSelectStop ==  \* case <-m.stopCh
     /\ UNCHANGED <<mu, top, mid, base, closed, wch, msig, topWait, baseWait, wpc, wdone, wres, ppc, llfails, npc, cpc, pdone>>
 
 MSelectPing ==  \* case pingVal := <-m.pingMergerCh
+    /\ UNCHANGED OUT
     /\ mpc = "select" /\ Len(pings) > 0
     /\ held' = Append(held, Head(pings)) /\ pings' = Tail(pings)
     /\ mpc' = "drain"
     /\ UNCHANGED <<mu, top, mid, base, closed, wch, msig, ponged, topWait, baseWait, wpc, wdone, wres, ppc, llfails, npc, cpc, mdone, pdone>>
 
 MSelectIncoming ==  \* case <-waitDirtyIncomingCh
+    /\ UNCHANGED OUT
     /\ mpc = "select" /\ msig
     /\ mpc' = "drain"
     /\ UNCHANGED <<mu, top, mid, base, closed, wch, msig, pings, held, ponged, topWait, baseWait, wpc, wdone, wres, ppc, llfails, npc, cpc, mdone, pdone>>
 
 MDrain ==       \* receivePings: everything that is queued, without blocking
+    /\ UNCHANGED OUT
     /\ mpc = "drain"
     /\ held' = held \o pings /\ pings' = <<>>
     /\ mpc' = "ingest"
     /\ UNCHANGED <<mu, top, mid, base, closed, wch, msig, ponged, topWait, baseWait, wpc, wdone, wres, ppc, llfails, npc, cpc, mdone, pdone>>
 
 MIngest ==      \* the snapshot callback 98-124: under the lock; wakes blocked writers
+    /\ UNCHANGED OUT
     /\ mpc = "ingest" /\ mu = 0
     /\ mid' = IF top > 0 \/ mid = "full" THEN "full" ELSE "empty"
     /\ top' = 0
@@ -153,28 +173,45 @@ MIngest ==      \* the snapshot callback 98-124: under the lock; wakes blocked w
     /\ UNCHANGED <<mu, base, closed, wch, msig, pings, held, ponged, baseWait, wpc, wdone, wres, ppc, llfails, npc, cpc, mdone, pdone>>
 
 MSwap ==        \* mergerMain's critical section
+    /\ UNCHANGED OUT
     /\ mpc = "swap" /\ mu = 0
     /\ mpc' = IF HasLL THEN "handoff" ELSE "loop"
     /\ UNCHANGED <<mu, top, mid, base, closed, wch, msig, pings, held, ponged, topWait, baseWait, wpc, wdone, wres, ppc, llfails, npc, cpc, mdone, pdone>>
 
-MHandoff ==     \* mergerNotifyPersister 326-348
+\* mergerNotifyPersister 326-395: under the lock the stack is handed off (the outgoing channel of
+\* the previous hand-off is closed and a new one made); when the dirty limits are exceeded the
+\* merger captures the current outgoing channel and, after unlocking, waits for it or for stop.
+OverDirty(t, m, b) == DirtyWait /\ (t > 0 \/ m = "full" \/ b = "full")
+MHandoff ==
     /\ mpc = "handoff" /\ mu = 0
     /\ IF base = "nil" /\ mid # "nil"
-       THEN base' = mid /\ mid' = "nil" /\ baseWait' = FALSE      \* Broadcast
-       ELSE UNCHANGED <<base, mid, baseWait>>
-    /\ mpc' = "loop"
-    /\ UNCHANGED <<mu, top, closed, wch, msig, pings, held, ponged, topWait, wpc, wdone, wres, ppc, llfails, npc, cpc, mdone, pdone>>
+       THEN /\ base' = mid /\ mid' = "nil" /\ baseWait' = FALSE      \* Broadcast
+            /\ oclosed' = IF och # 0 THEN oclosed \cup {och} ELSE oclosed
+            /\ ogen' = ogen + 1 /\ och' = ogen + 1
+       ELSE UNCHANGED <<base, mid, baseWait, oclosed, ogen, och>>
+    /\ IF OverDirty(top, mid', base') /\ och' # 0
+       THEN mout' = och' /\ mpc' = "waitout"
+       ELSE mout' = 0 /\ mpc' = "loop"
+    /\ UNCHANGED <<mu, top, closed, wch, msig, pings, held, ponged, topWait, wpc, wdone, wres, ppc, llfails, npc, cpc, mdone, pdone, pout>>
+
+MWaitOut ==     \* select { case <-m.stopCh: return; case <-waitDirtyOutgoingCh: }
+    /\ mpc = "waitout"
+    /\ closed \/ (mout \in oclosed /\ ~Dev("PersisterDoesNotCloseOutgoing"))
+    /\ mout' = 0 /\ mpc' = "loop"
+    /\ UNCHANGED <<mu, top, mid, base, closed, wch, msig, pings, held, ponged, topWait, baseWait, wpc, wdone, wres, ppc, llfails, npc, cpc, mdone, pdone, och, oclosed, ogen, pout>>
 
 -----------------------------------------------------------------------------
 (* The persister (persister.go) *)
 
 PLock ==
+    /\ UNCHANGED OUT
     /\ ppc = "lock" /\ mu = 0
     /\ mu' = 100 /\ ppc' = "check"
     /\ UNCHANGED <<top, mid, base, closed, wch, msig, pings, held, ponged, topWait, baseWait, wpc, wdone, wres, mpc, llfails, npc, cpc, mdone, pdone>>
 
 \* the wait loop 34-56, holding the mutex
 PCheck ==
+    /\ UNCHANGED OUT
     /\ ppc = "check" /\ mu = 100
     /\ IF base = "nil" /\ ~closed
        THEN IF wch # "nil" /\ mid = "full" /\ top = 0 /\ ~Dev("PersisterDoesNotNotify")
@@ -187,6 +224,7 @@ PCheck ==
 \* ping channel is full, executed while the collection mutex is held (persister.go:47-51).
 \* In the intended design the notification never blocks under the mutex.
 PNotify ==
+    /\ UNCHANGED OUT
     /\ ppc = "notify" /\ mu = 100
     /\ IF Len(pings) < PingCap
        THEN pings' = Append(pings, [from |-> 0, sync |-> FALSE])
@@ -196,36 +234,49 @@ PNotify ==
     /\ UNCHANGED <<top, mid, base, closed, wch, msig, held, ponged, topWait, wpc, wdone, wres, mpc, llfails, npc, cpc, mdone, pdone>>
 
 PWake ==
+    /\ UNCHANGED OUT
     /\ ppc = "waiting" /\ ~baseWait
     /\ ppc' = "lock"
     /\ UNCHANGED <<mu, top, mid, base, closed, wch, msig, pings, held, ponged, topWait, baseWait, wpc, wdone, wres, mpc, llfails, npc, cpc, mdone, pdone>>
 
 PAfterCapture ==    \* 62-64
+    /\ UNCHANGED OUT
     /\ ppc = "captured"
     /\ IF closed THEN ppc' = "exited" /\ pdone' = TRUE ELSE ppc' = "update" /\ pdone' = pdone
     /\ UNCHANGED <<mu, top, mid, base, closed, wch, msig, pings, held, ponged, topWait, baseWait, wpc, wdone, wres, mpc, llfails, npc, cpc, mdone>>
 
 PUpdateOk ==        \* LowerLevelUpdate returned a snapshot
+    /\ UNCHANGED OUT
     /\ ppc = "update"
     /\ ppc' = "swaplock"
     /\ UNCHANGED <<mu, top, mid, base, closed, wch, msig, pings, held, ponged, topWait, baseWait, wpc, wdone, wres, mpc, llfails, npc, cpc, mdone, pdone>>
 
 PUpdateFail ==      \* LowerLevelUpdate failed: OnError, retry
+    /\ UNCHANGED OUT
     /\ ppc = "update" /\ llfails < MaxLLFails
     /\ llfails' = llfails + 1
     /\ ppc' = "lock"
     /\ UNCHANGED <<mu, top, mid, base, closed, wch, msig, pings, held, ponged, topWait, baseWait, wpc, wdone, wres, mpc, npc, cpc, mdone, pdone>>
 
-PSwap ==            \* 86-106
+PSwap ==            \* 86-113: under the lock; the outgoing channel is taken out of the collection
     /\ ppc = "swaplock" /\ mu = 0
     /\ base' = "nil"
+    /\ pout' = och /\ och' = 0
+    /\ ppc' = "closeout"
+    /\ UNCHANGED <<mu, top, mid, closed, wch, msig, pings, held, ponged, topWait, baseWait, wpc, wdone, wres, mpc, llfails, npc, cpc, mdone, pdone, oclosed, ogen, mout>>
+
+PCloseOut ==        \* 127-129: after unlocking, close(waitDirtyOutgoingCh)
+    /\ ppc = "closeout"
+    /\ oclosed' = IF pout # 0 THEN oclosed \cup {pout} ELSE oclosed
+    /\ pout' = 0
     /\ ppc' = "lock"
-    /\ UNCHANGED <<mu, top, mid, closed, wch, msig, pings, held, ponged, topWait, baseWait, wpc, wdone, wres, mpc, llfails, npc, cpc, mdone, pdone>>
+    /\ UNCHANGED <<mu, top, mid, base, closed, wch, msig, pings, held, ponged, topWait, baseWait, wpc, wdone, wres, mpc, llfails, npc, cpc, mdone, pdone, och, ogen, mout>>
 
 -----------------------------------------------------------------------------
 (* Notifiers: NotifyMerger(kind, synchronous) *)
 
 NSend(n) ==
+    /\ UNCHANGED OUT
     /\ npc[n] = "idle"
     /\ IF Len(pings) < PingCap
        THEN /\ pings' = Append(pings, [from |-> n, sync |-> SyncNotify])
@@ -235,6 +286,7 @@ NSend(n) ==
     /\ UNCHANGED <<mu, top, mid, base, closed, wch, msig, held, ponged, topWait, baseWait, wpc, wdone, wres, mpc, ppc, llfails, cpc, mdone, pdone>>
 
 NPong(n) ==
+    /\ UNCHANGED OUT
     /\ npc[n] = "pong"
     /\ n \in ponged \/ (mdone /\ ~Dev("ExitIgnoresQueuedPings"))
     /\ npc' = [npc EXCEPT ![n] = "done"]
@@ -244,6 +296,7 @@ NPong(n) ==
 (* The closer: Close() (collection.go:122-181) *)
 
 CBegin ==
+    /\ UNCHANGED OUT
     /\ cpc = "idle" /\ mu = 0
     /\ closed' = TRUE
     /\ topWait' = {} /\ baseWait' = FALSE           \* both Broadcasts
@@ -251,16 +304,19 @@ CBegin ==
     /\ UNCHANGED <<mu, top, mid, base, wch, msig, pings, held, ponged, wpc, wdone, wres, mpc, ppc, llfails, npc, mdone, pdone>>
 
 CWaitMerger ==
+    /\ UNCHANGED OUT
     /\ cpc = "waitmerger" /\ mdone
     /\ cpc' = "waitpersister"
     /\ UNCHANGED <<mu, top, mid, base, closed, wch, msig, pings, held, ponged, topWait, baseWait, wpc, wdone, wres, mpc, ppc, llfails, npc, mdone, pdone>>
 
 CWaitPersister ==
+    /\ UNCHANGED OUT
     /\ cpc = "waitpersister" /\ pdone
     /\ cpc' = "final"
     /\ UNCHANGED <<mu, top, mid, base, closed, wch, msig, pings, held, ponged, topWait, baseWait, wpc, wdone, wres, mpc, ppc, llfails, npc, mdone, pdone>>
 
 CFinal ==
+    /\ UNCHANGED OUT
     /\ cpc = "final" /\ mu = 0
     /\ top' = 0 /\ mid' = "nil" /\ base' = "nil"
     /\ cpc' = "done"
@@ -269,16 +325,16 @@ CFinal ==
 -----------------------------------------------------------------------------
 Next ==
     \/ \E w \in Writers : WCall(w) \/ WLock(w) \/ WCheck(w) \/ WWake(w)
-    \/ MLoop \/ MWaitForWork \/ MSelectStop \/ MSelectPing \/ MSelectIncoming \/ MDrain \/ MIngest \/ MSwap \/ MHandoff
-    \/ PLock \/ PCheck \/ PNotify \/ PWake \/ PAfterCapture \/ PUpdateOk \/ PUpdateFail \/ PSwap
+    \/ MLoop \/ MWaitForWork \/ MSelectStop \/ MSelectPing \/ MSelectIncoming \/ MDrain \/ MIngest \/ MSwap \/ MHandoff \/ MWaitOut
+    \/ PLock \/ PCheck \/ PNotify \/ PWake \/ PAfterCapture \/ PUpdateOk \/ PUpdateFail \/ PSwap \/ PCloseOut
     \/ \E n \in Notifiers : NSend(n) \/ NPong(n)
     \/ CBegin \/ CWaitMerger \/ CWaitPersister \/ CFinal
 
 Fairness ==
     /\ \A w \in Writers : WF_vars(WLock(w)) /\ WF_vars(WCheck(w)) /\ WF_vars(WWake(w)) /\ WF_vars(WCall(w))
     /\ WF_vars(MLoop) /\ WF_vars(MWaitForWork) /\ WF_vars(MSelectStop \/ MSelectPing \/ MSelectIncoming) /\ WF_vars(MDrain)
-    /\ WF_vars(MIngest) /\ WF_vars(MSwap) /\ WF_vars(MHandoff)
-    /\ WF_vars(PLock) /\ WF_vars(PCheck) /\ WF_vars(PNotify) /\ WF_vars(PWake) /\ WF_vars(PAfterCapture) /\ WF_vars(PUpdateOk) /\ WF_vars(PSwap)
+    /\ WF_vars(MIngest) /\ WF_vars(MSwap) /\ WF_vars(MHandoff) /\ WF_vars(MWaitOut)
+    /\ WF_vars(PLock) /\ WF_vars(PCheck) /\ WF_vars(PNotify) /\ WF_vars(PWake) /\ WF_vars(PAfterCapture) /\ WF_vars(PUpdateOk) /\ WF_vars(PSwap) /\ WF_vars(PCloseOut)
     /\ \A n \in Notifiers : WF_vars(NSend(n)) /\ WF_vars(NPong(n))
     /\ WF_vars(CBegin) /\ WF_vars(CWaitMerger) /\ WF_vars(CWaitPersister) /\ WF_vars(CFinal)
 
